@@ -53,7 +53,7 @@ SITES = {
     "cdata": '<r><![CDATA[x${v}y]]></r>',
     "textmode": 'x${v}y',
 }
-KINDS = ["str", "strsub", "bytes", "obj", "msg"]
+KINDS = ["str", "strsub", "bytes", "obj", "msg", "intsub", "floatsub"]
 
 
 class StrSub(str):
@@ -86,6 +86,28 @@ class Html:
         return self.s
 
 
+class IntSub(int):
+    """a number subclass whose string form is hostile (e.g. an int-backed enum with a label)"""
+
+    def __new__(cls, s):
+        o = int.__new__(cls, 3)
+        o.s = s
+        return o
+
+    def __str__(self):
+        return self.s
+
+
+class FloatSub(float):
+    def __new__(cls, s):
+        o = float.__new__(cls, 1.5)
+        o.s = s
+        return o
+
+    def __str__(self):
+        return self.s
+
+
 def make_value(kind, s):
     if kind == "str":
         return s
@@ -99,6 +121,10 @@ def make_value(kind, s):
         return Msg(s)
     if kind == "html":
         return Html(s)
+    if kind == "intsub":
+        return IntSub(s)
+    if kind == "floatsub":
+        return FloatSub(s)
     raise ValueError(kind)
 
 
@@ -286,7 +312,7 @@ def run(ctx):
                 ctx.fail("negative control: a region with a raw forbidden character was accepted")
     ctx.exhaustive = True
     ctx.rule = ("all strings over {& < > \" ' a} up to length %d x %d insertion sites (12 escaping, 5 opt-out) x value kinds "
-                "{str, str subclass, bytes, object with hostile __str__, message object whose translation is hostile; "
+                "{str, str subclass, bytes, object with hostile __str__, int / float subclass with hostile __str__, message object whose translation is hostile; "
                 "__html__ object at its opt-out site}; non-trivial = the string contains a markup character" % (maxlen, len(SITES)))
     ctx.assumptions += ["unquoted attribute values and hostile attribute-dictionary KEYS are outside the statement",
                         "the character classes stand for the six concrete characters themselves"]
